@@ -110,4 +110,18 @@ def announceCommand (outcomes : List TrackerOutcome) : Nat × List Bytes :=
     | _ => s) []
   if usable.isEmpty then (1, []) else (0, peers)
 
+/-- what `torrent announce` writes to standard error for one tracker of the torrent -/
+inductive Note where
+  | skipped   -- "Skipping tracker: …" / "Couldn't build tracker client. …"
+  | failed    -- "Announce failed: …"
+deriving DecidableEq, Repr
+
+def noteOf : TrackerOutcome → Option Note
+  | .skipped => some .skipped
+  | .announceFailed => some .failed
+  | .peers _ => none
+
+/-- the notes on standard error, one per tracker that was skipped or whose exchange failed, in tracker order -/
+def announceNotes (outcomes : List TrackerOutcome) : List Note := outcomes.filterMap noteOf
+
 end Imdlv.Tracker
